@@ -1,24 +1,37 @@
 /* c17_drv.c - conformance driver for C17 (object selection and k-means).
  *
- * usage: c17_drv <out.ndjson> grid <pointsfile> <seed> <kmstride> <full>
+ * usage: c17_drv <out.ndjson> grid <pointsfile> <seed> <kmstride> <full> [<affstride>]
  *        c17_drv <out.ndjson> rand <seed> <first> <count>
+ *        c17_drv <out.ndjson> cls  <seed> <first> <count>
+ *        c17_drv <out.ndjson> corner <seed> <first> <count>
  *
  * grid: every line of <pointsfile> is a TLC-generated point set "id n d distinct x_11 .. x_nd" (small integer grid, ties
  *       everywhere): MaxDis and MaxDis_Fast for every size 1..n and metrics 0/1, MDC, and (distinct points only)
- *       KMeansppCenters and KMeans.
+ *       KMeansppCenters and KMeans.  Every KMeans run with one thread also records its Lloyd iterations through hook H6
+ *       (KmStart / KmIt / KmEnd).  Every <affstride>-th point set is run a second time TRANSLATED / SCALED UP by exactly
+ *       representable amounts (classes K3/K4: offsets 1e3, 1e5, 1e6 per column with signs, scale 10^0..10^3).
  * rand: seeded integer point sets in general position (distinct rows, no zero row), 3..80 objects x 1..6 variables:
  *       selections for a sample of sizes, all three metrics, 1..8 threads; KMeans for k <= min(6, n), initialisers 0..3,
  *       1..8 threads.  Up to 12 objects TLC recomputes the distances from the logged points (exact = 1); beyond, and for
  *       the cosine metric, it works on the logged dense RANKS of the distances.
+ * cls:  class-directed seeded point sets (INPUT-CLASSES.md): index -> (shape class K1/K2, affine class K3/K4/K5, history
+ *       class K7, tiny sets whose Lloyd iterations TLC replays exactly).  The matrix handed to the library is
+ *       a_ij = off_j + x_ij * 10^sexp  (x integer, general position); the trace carries x, off and sexp, all tolerances are
+ *       computed by the specification from them.
+ * corner: many small tight point sets at the far corner of K3 x K4 (offset / resolution 1e7..1e9) with a light call set: first
+ *       pick + one greedy step of both max-min implementations (metrics 0/1), every k-means initialiser once.
  * Requests outside the property's quantifier (more selections than objects, duplicate rows for k-means++) are never made.
- * All library calls for one point set run in one child process under a watchdog; a crash or hang becomes a Crash event.
- * Events: see spec/TraceSelect.tla.
+ * All library calls for one point set (one history in the K7 class) run in one child process under a watchdog; a crash
+ * or hang becomes a Crash event.
+ * Events: see spec/TraceSelect.tla and spec/TraceLloyd.tla.
  */
 #include "scientific.h"
 #include "verif_rt.h"
 #include <sys/mman.h>
 
-typedef struct { long id; int n, d, exact, distinct, grid, kmstride, full, kmonly; long *x; uint64_t seed; } pset;
+typedef struct { long id; int n, d, exact, distinct, grid, kmstride, full, kmonly; long *x; uint64_t seed;
+                 int affine, sexp; long off[8]; double *a;     /* a_ij = off_j + x_ij * 10^sexp: what the library sees */
+                 int tiny, hist, chain, shape, corner; } pset;
 
 typedef struct { char call[96]; } shared_t;
 static shared_t *g_sh;
@@ -27,7 +40,16 @@ static shared_t *g_sh;
 static long g_iters = 0;
 static void slice_cb(const char *site, size_t th, size_t from, size_t to, size_t nn){ (void)from; (void)to; (void)nn; if(th == 0 && !strcmp(site, "getLabels_")) g_iters++; }
 
-static matrix *mkm(pset *p){ matrix *m; NewMatrix(&m, p->n, p->d); for(int i = 0; i < p->n; i++) for(int j = 0; j < p->d; j++) m->data[i][j] = (double)p->x[i * p->d + j]; return m; }
+static long double p10(int e){ long double r = 1; for(int i = 0; i < (e < 0 ? -e : e); i++) r *= 10; return r; }
+/* x * 10^sexp correctly rounded (10^|sexp| is exact in double up to 10^22; one multiplication or one division) */
+static double scalex(long x, int sexp){ double P = (double)p10(sexp); return sexp >= 0 ? (double)x * P : (double)x / P; }
+static void fill_actual(pset *p){
+  p->a = malloc(sizeof(double) * p->n * p->d);
+  for(int i = 0; i < p->n; i++) for(int j = 0; j < p->d; j++) p->a[i * p->d + j] = (double)p->off[j] + scalex(p->x[i * p->d + j], p->sexp);
+}
+static matrix *mkm(pset *p){ matrix *m; NewMatrix(&m, p->n, p->d); for(int i = 0; i < p->n; i++) for(int j = 0; j < p->d; j++) m->data[i][j] = p->a[i * p->d + j]; return m; }
+/* (v - off_j) / 10^sexp in extended precision: the centroid coordinate in the units of the logged integer points */
+static long double tox(pset *p, int j, double v){ long double t = (long double)v - (long double)p->off[j]; return p->sexp >= 0 ? t / p10(p->sexp) : t * p10(p->sexp); }
 
 static void emit_sel(const char *method, int metric, int n, int th, uivector *s, int nobj){
   static char buf[4096]; int p = snprintf(buf, sizeof buf, "{\"e\":\"Sel\",\"method\":\"%s\",\"metric\":%d,\"n\":%d,\"th\":%d,\"seq\":[", method, metric, n, th);
@@ -61,10 +83,10 @@ static void dense_rank(const double *v, long cnt, long *rk){
   for(long i = 0; i < cnt; i++){ long lo = 0, hi = u - 1; while(lo < hi){ long mid = (lo + hi) / 2; if(s[mid] < v[i]) lo = mid + 1; else hi = mid; } rk[i] = lo + 1; }
   free(s);
 }
-/* the library's definition of the three "distances" (C13 pins CalculateDistance to these) */
+/* the library's definition of the three "distances" (C13 pins CalculateDistance to these), on the matrix the library sees */
 static double libdist(pset *p, int i, int k, int metric){
   double s = 0, da = 0, db = 0;
-  for(int j = 0; j < p->d; j++){ double a = (double)p->x[i * p->d + j], b = (double)p->x[k * p->d + j];
+  for(int j = 0; j < p->d; j++){ double a = p->a[i * p->d + j], b = p->a[k * p->d + j];
     if(metric == 0) s += (a - b) * (a - b); else if(metric == 1) s += fabs(a - b); else { s += a * b; da += a * a; db += b * b; } }
   if(metric == 0) return sqrt(s); if(metric == 1) return s; return s / (sqrt(da) * sqrt(db));
 }
@@ -72,11 +94,21 @@ static void emit_ranks(pset *p, int metric){
   long n = p->n; double *v = malloc(sizeof(double) * n * n); long *rk = malloc(sizeof(long) * n * n);
   for(int i = 0; i < n; i++) for(int k = 0; k < n; k++) v[i * n + k] = i == k ? (metric == 2 ? 1.0 : 0.0) : (i < k ? libdist(p, i, k, metric) : libdist(p, k, i, metric));
   dense_rank(v, n * n, rk);
-  /* distance to the centroid: n^2 d^2 exactly in 64-bit integers */
   double *c = malloc(sizeof(double) * n); long *cr = malloc(sizeof(long) * n);
-  for(int i = 0; i < n; i++){ int64_t acc = 0; for(int j = 0; j < p->d; j++){ int64_t S = 0; for(int r = 0; r < n; r++) S += p->x[r * p->d + j]; int64_t t = (int64_t)n * p->x[i * p->d + j] - S; acc += t * t; } c[i] = (double)acc; }
-  dense_rank(c, n, cr);
-  size_t cap = (size_t)n * n * 8 + n * 8 + 256; char *buf = malloc(cap); size_t q = 0;
+  if(!p->affine){
+    /* distance to the centroid: n^2 d^2 exactly in 64-bit integers */
+    for(int i = 0; i < n; i++){ int64_t acc = 0; for(int j = 0; j < p->d; j++){ int64_t S = 0; for(int r = 0; r < n; r++) S += p->x[r * p->d + j]; int64_t t = (int64_t)n * p->x[i * p->d + j] - S; acc += t * t; } c[i] = (double)acc; }
+    dense_rank(c, n, cr);
+  }
+  else{
+    /* translated / scaled data: the distances to the centroid of the matrix the library sees, in extended precision,
+       as integers on a scale on which the largest is 10^9 (the spec accepts a first pick within its tolerance of the top) */
+    long double *dq = malloc(sizeof(long double) * n), dmax = 0;
+    for(int i = 0; i < n; i++){ long double acc = 0; for(int j = 0; j < p->d; j++){ long double S = 0; for(int r = 0; r < n; r++) S += (long double)p->a[r * p->d + j]; long double t = (long double)p->a[i * p->d + j] - S / (long double)n; acc += t * t; } dq[i] = sqrtl(acc); if(dq[i] > dmax) dmax = dq[i]; }
+    for(int i = 0; i < n; i++) cr[i] = dmax > 0 ? (long)llroundl(dq[i] / dmax * 1e9L) : 0;
+    free(dq);
+  }
+  size_t cap = (size_t)n * n * 8 + n * 12 + 256; char *buf = malloc(cap); size_t q = 0;
   q += snprintf(buf + q, cap - q, "{\"e\":\"Ranks\",\"metric\":%d,\"R\":[", metric);
   for(int i = 0; i < n; i++){ q += snprintf(buf + q, cap - q, "%s[", i ? "," : ""); for(int k = 0; k < n; k++) q += snprintf(buf + q, cap - q, "%s%ld", k ? "," : "", rk[i * n + k]); q += snprintf(buf + q, cap - q, "]"); }
   q += snprintf(buf + q, cap - q, "],\"c\":[");
@@ -86,13 +118,69 @@ static void emit_ranks(pset *p, int metric){
   free(buf); free(v); free(rk); free(c); free(cr);
 }
 
+/* ---------------------------------------------------------------- k-means */
 typedef struct { uivector *lab; matrix *cen; long iters; } kmres;
-static void km_run(matrix *m, int k, int init, int th, uint32_t seed, kmres *r){
-  initUIVector(&r->lab); initMatrix(&r->cen);
+
+/* Lloyd iterations through hook H6 (VERIF_STATE at the end of every iteration of KMeans) */
+static pset *g_chain = NULL; static int g_chain_k = 0;
+static long match_row(pset *p, const double *row){   /* object (1..) whose row is bit-identical to the centroid, 0 if none */
+  for(int i = 0; i < p->n; i++) if(!memcmp(p->a + (size_t)i * p->d, row, sizeof(double) * p->d)) return i + 1;
+  return 0;
+}
+/* centroid rows * member counts as integers in the units of the logged points; res = largest rounding residual (1e-9 units) */
+static size_t put_cnum(pset *p, char *buf, size_t cap, size_t q, matrix *cen, const long *cnt, int k, long *resq){
+  int d = p->d; long double worst = 0;
+  for(int c = 0; c < k; c++){ q += snprintf(buf + q, cap - q, "%s[", c ? "," : "");
+    for(int j = 0; j < d; j++){ long double v = tox(p, j, cen->data[c][j]) * (long double)cnt[c]; long iv = (v == v && fabsl(v) < 1.9e9L) ? (long)llroundl(v) : 2000000000L;
+      long double e = fabsl(v - (long double)iv); if(!(e == e)) e = 1e300L; if(cnt[c] > 0 && e > worst) worst = e;
+      q += snprintf(buf + q, cap - q, "%s%ld", j ? "," : "", iv); }
+    q += snprintf(buf + q, cap - q, "]"); }
+  *resq = vq9((double)worst);
+  return q;
+}
+static void state_cb(const char *site, size_t step, const void *a, const void *b, const void *c){
+  if(!g_chain || strcmp(site, "KMeans")) return;
+  pset *p = g_chain; const matrix *cen = a, *old = b; const uivector *lab = c; int k = g_chain_k, n = p->n, d = p->d;
+  if((int)cen->row != k || (int)cen->col != d || (int)old->row != k || (int)old->col != d || (int)lab->size != n){ VRT_EMIT("{\"e\":\"KmIt\",\"it\":%zu,\"bad\":1}", step); return; }
+  size_t cap = (size_t)n * 12 + (size_t)k * d * 24 + 512; char *buf = malloc(cap); size_t q = 0;
+  if(step == 1){   /* the centroids the first assignment step used are the start objects */
+    q += snprintf(buf + q, cap - q, "{\"e\":\"KmInit\",\"obj\":[");
+    for(int cc = 0; cc < k; cc++) q += snprintf(buf + q, cap - q, "%s%ld", cc ? "," : "", match_row(p, old->data[cc]));
+    snprintf(buf + q, cap - q, "]}"); VRT_EMIT("%s", buf); q = 0;
+  }
+  long *cnt = calloc(k, sizeof(long));
+  q += snprintf(buf + q, cap - q, "{\"e\":\"KmIt\",\"it\":%zu,\"labels\":[", step);
+  for(int i = 0; i < n; i++){ size_t v = lab->data[i]; if(v < (size_t)k) cnt[v]++; q += snprintf(buf + q, cap - q, "%s%ld", i ? "," : "", v < 2000000000UL ? (long)v : 2000000000L); }
+  q += snprintf(buf + q, cap - q, "],\"cnt\":[");
+  for(int cc = 0; cc < k; cc++) q += snprintf(buf + q, cap - q, "%s%ld", cc ? "," : "", cnt[cc]);
+  q += snprintf(buf + q, cap - q, "],\"cnum\":[");
+  long resq; q = put_cnum(p, buf, cap, q, (matrix *)cen, cnt, k, &resq);
+  q += snprintf(buf + q, cap - q, "],\"re\":[");       /* an empty cluster is restarted at an object: which one */
+  for(int cc = 0; cc < k; cc++) q += snprintf(buf + q, cap - q, "%s%ld", cc ? "," : "", cnt[cc] == 0 ? match_row(p, cen->data[cc]) : 0L);
+  snprintf(buf + q, cap - q, "],\"res\":%ld}", resq);
+  VRT_EMIT("%s", buf);
+  free(buf); free(cnt);
+}
+
+static void km_call(pset *p, matrix *m, int k, int init, int th, uint32_t seed, kmres *r, int chain){
   STAGE("KMeans(k=%d,init=%d,threads=%d,seed=%u)", k, init, th, seed);
   srand_(seed); g_iters = 0;
+#ifdef LIBSCIENTIFIC_VERIF
+  if(chain){ g_chain = p; g_chain_k = k; libsci_verif_state = state_cb; VRT_EMIT("{\"e\":\"KmStart\",\"k\":%d,\"init\":%d,\"th\":%d}", k, init, th); }
+#endif
   KMeans(m, (size_t)k, init, r->lab, r->cen, (size_t)th);
   r->iters = g_iters;
+#ifdef LIBSCIENTIFIC_VERIF
+  if(chain){ libsci_verif_state = 0; g_chain = NULL;
+    size_t cap = (size_t)p->n * 12 + 256; char *buf = malloc(cap); size_t q = 0;
+    q += snprintf(buf + q, cap - q, "{\"e\":\"KmEnd\",\"iters\":%ld,\"labels\":[", r->iters);
+    for(size_t i = 0; i < r->lab->size; i++){ size_t v = r->lab->data[i]; q += snprintf(buf + q, cap - q, "%s%ld", i ? "," : "", v < 2000000000UL ? (long)v : 2000000000L); }
+    snprintf(buf + q, cap - q, "]}"); VRT_EMIT("%s", buf); free(buf); }
+#endif
+}
+static void km_run(pset *p, matrix *m, int k, int init, int th, uint32_t seed, kmres *r){
+  initUIVector(&r->lab); initMatrix(&r->cen);
+  km_call(p, m, k, init, th, seed, r, p->chain && th == 1);
 }
 static void km_free(kmres *r){ DelUIVector(&r->lab); DelMatrix(&r->cen); }
 static int km_same(kmres *a, kmres *b){
@@ -101,8 +189,8 @@ static int km_same(kmres *a, kmres *b){
   for(size_t i = 0; i < a->cen->row; i++) for(size_t j = 0; j < a->cen->col; j++) if(memcmp(&a->cen->data[i][j], &b->cen->data[i][j], 8)) return 0;
   return 1;
 }
-static void emit_km(pset *p, int k, int init, int th, kmres *r){
-  int n = p->n, d = p->d; size_t cap = (size_t)n * 12 + (size_t)k * d * 24 + 512; char *buf = malloc(cap); size_t q = 0;
+static void emit_km(pset *p, int k, int init, int th, kmres *r, int reuse){
+  int n = p->n, d = p->d; size_t cap = (size_t)n * 12 + (size_t)k * d * 24 + (size_t)k * 12 + 512; char *buf = malloc(cap); size_t q = 0;
   long *cnt = calloc(k, sizeof(long));
   q += snprintf(buf + q, cap - q, "{\"e\":\"Km\",\"k\":%d,\"init\":%d,\"th\":%d,\"labels\":[", k, init, th);
   for(size_t i = 0; i < r->lab->size; i++){ size_t v = r->lab->data[i]; if(v < (size_t)k) cnt[v]++; q += snprintf(buf + q, cap - q, "%s%ld", i ? "," : "", v < 2000000000UL ? (long)v : 2000000000L); }
@@ -110,39 +198,51 @@ static void emit_km(pset *p, int k, int init, int th, kmres *r){
   for(int c = 0; c < k; c++) q += snprintf(buf + q, cap - q, "%s%ld", c ? "," : "", cnt[c]);
   q += snprintf(buf + q, cap - q, "],\"cnum\":[");
   double cerr = 0; int shape_ok = (int)r->cen->row == k && (int)r->cen->col == d;
+  long *cres = calloc(k, sizeof(long));     /* per cluster: largest |centroid*count - integer| in 1e-9 units of the logged points */
   for(int c = 0; c < k; c++){ q += snprintf(buf + q, cap - q, "%s[", c ? "," : "");
-    for(int j = 0; j < d; j++){ double v = shape_ok ? r->cen->data[c][j] * (double)cnt[c] : NAN; long iv = (v == v && fabs(v) < 1.9e9) ? (long)llround(v) : 2000000000L;
-      double e = fabs(v - (double)iv) / fmax(1.0, fabs((double)iv)); if(!(e == e)) e = 1e300; if(cnt[c] > 0 && e > cerr) cerr = e;
+    for(int j = 0; j < d; j++){
+      long iv; double e;
+      if(!p->affine){ double v = shape_ok ? r->cen->data[c][j] * (double)cnt[c] : NAN; iv = (v == v && fabs(v) < 1.9e9) ? (long)llround(v) : 2000000000L;
+        e = fabs(v - (double)iv) / fmax(1.0, fabs((double)iv)); if(!(e == e)) e = 1e300; if(cnt[c] > 0 && e > cerr) cerr = e; }
+      else{ long double v = shape_ok ? tox(p, j, r->cen->data[c][j]) * (long double)cnt[c] : (long double)NAN; iv = (v == v && fabsl(v) < 1.9e9L) ? (long)llroundl(v) : 2000000000L;
+        long double ea = fabsl(v - (long double)iv); if(!(ea == ea)) ea = 1e300L; long eq = vq9((double)ea); if(cnt[c] > 0 && eq > cres[c]) cres[c] = eq; }
       q += snprintf(buf + q, cap - q, "%s%ld", j ? "," : "", iv); }
     q += snprintf(buf + q, cap - q, "]"); }
-  /* nearest-centroid slack (Euclidean), units of 1e-6, saturating at 40000 */
+  q += snprintf(buf + q, cap - q, "],\"cres\":[");
+  for(int c = 0; c < k; c++) q += snprintf(buf + q, cap - q, "%s%ld", c ? "," : "", cres[c]);
+  /* nearest-centroid slack (Euclidean, in the units of the matrix the library sees), units of 1e-6, saturating at 40000 */
   double slack = 0;
   if(shape_ok && (int)r->lab->size == n) for(int i = 0; i < n; i++){ size_t lb = r->lab->data[i]; if(lb >= (size_t)k){ slack = 1e300; break; }
-    double dl = 0, dm = 1e300; for(int c = 0; c < k; c++){ double s = 0; for(int j = 0; j < d; j++){ double t = (double)p->x[i * d + j] - r->cen->data[c][j]; s += t * t; } s = sqrt(s); if(c == (int)lb) dl = s; if(s < dm) dm = s; }
+    double dl = 0, dm = 1e300; for(int c = 0; c < k; c++){ double s = 0; for(int j = 0; j < d; j++){ double t = p->a[i * d + j] - r->cen->data[c][j]; s += t * t; } s = sqrt(s); if(c == (int)lb) dl = s; if(s < dm) dm = s; }
     if(dl - dm > slack) slack = dl - dm; }
   else slack = 1e300;
   long sq = vq_unit(slack, 1e-6); if(sq > 40000) sq = 40000;
   int empty = 0; for(int c = 0; c < k; c++) if(cnt[c] == 0) empty++;
-  snprintf(buf + q, cap - q, "],\"cerr\":%ld,\"slack\":%ld,\"iters\":%ld,\"conv\":%d,\"empty\":%d}", vq12(cerr), sq, r->iters, r->iters <= 100 ? 1 : 0, empty);
+  snprintf(buf + q, cap - q, "],\"cerr\":%ld,\"slack\":%ld,\"iters\":%ld,\"conv\":%d,\"empty\":%d,\"reuse\":%d}", vq12(cerr), sq, r->iters, r->iters <= 100 ? 1 : 0, empty, reuse);
   VRT_EMIT("%s", buf);
-  free(buf); free(cnt);
+  free(buf); free(cnt); free(cres);
 }
 
-static int run_set(void *arg){
-  pset *p = (pset *)arg; matrix *m = mkm(p); int n = p->n; vrng R = { p->seed };
-#ifdef LIBSCIENTIFIC_VERIF
-  libsci_verif_slice = slice_cb;
-#endif
+/* a thread count of the wanted relation to the number of objects (class K6): 0 dividing, 1 not dividing, 2 more threads than objects */
+static int th_class(int n, int cls, vrng *R){
+  if(cls == 2 && n < 8) return (int)vr_int(R, n + 1, 8);
+  for(int t = 0; t < 40; t++){ int th = (int)vr_int(R, 2, n < 8 ? n : 8); if((n % th == 0) == (cls == 0)) return th; }
+  return cls == 0 ? 1 : 2 + (n % 2 == 0);
+}
+
+static void run_calls(pset *p){
+  matrix *m = mkm(p); int n = p->n; vrng R = { p->seed };
   if(p->kmonly){
     /* translated copy whose object farthest from the centroid sits at the origin: k-means must not depend on the origin */
     for(int k = 1; k <= 2 && k <= n; k++) for(int init = 2; init < 4; init++){
-      kmres a; km_run(m, k, init, 1, 1, &a); emit_km(p, k, init, 1, &a); km_free(&a);
+      kmres a; km_run(p, m, k, init, 1, 1, &a); emit_km(p, k, init, 1, &a, 0); km_free(&a);
     }
   }
   else if(p->grid){
     /* both implementations for every size (metric 1 in the reduced mode: size n only), a second thread count at full size */
     for(int metric = 0; metric < 2; metric++) for(int k = 1; k <= n; k++){
       if(!p->full && metric == 1 && k != n) continue;
+      if(p->affine && !(k == n || k == 2)) continue;
       do_sel("MaxDis", MaxDis, m, k, metric, 1);
       do_sel("MaxDis_Fast", MaxDis_Fast, m, k, metric, 1);
       if(k == n && (p->full || metric == 0)) do_sel("MaxDis_Fast", MaxDis_Fast, m, k, metric, 2 + (int)(p->id % 3));
@@ -156,13 +256,65 @@ static int run_set(void *arg){
       if(p->kmstride > 0 && p->id % p->kmstride == 0)
         for(int k = 1; k <= n && k <= 6; k++) for(int init = 0; init < 4; init++){
           kmres a, b; uint32_t sd = (uint32_t)(p->seed * 31 + k * 4 + init);
-          km_run(m, k, init, 1, sd, &a); emit_km(p, k, init, 1, &a);
+          km_run(p, m, k, init, 1, sd, &a); emit_km(p, k, init, 1, &a, 0);
           int th = 2 + (k + init) % 3;
-          km_run(m, k, init, th, sd, &b);
+          km_run(p, m, k, init, th, sd, &b);
           VRT_EMIT("{\"e\":\"KmTh\",\"k\":%d,\"init\":%d,\"th\":%d,\"same\":%d}", k, init, th, km_same(&a, &b));
           km_free(&a); km_free(&b);
         }
     }
+  }
+  else if(p->corner == 2){
+    /* light call set on a far-corner point set */
+    for(int metric = 0; metric < 2; metric++) emit_ranks(p, metric);
+    for(int metric = 0; metric < 2; metric++){
+      do_sel("MaxDis", MaxDis, m, 2, metric, 1); do_sel("MaxDis_Fast", MaxDis_Fast, m, 2, metric, 1);
+    }
+    do_sel("MaxDis", MaxDis, m, n, 0, 1); do_sel("MaxDis_Fast", MaxDis_Fast, m, n, 0, 2);
+    int kmax = n < 6 ? n : 6;
+    for(int init = 0; init < 4; init++){
+      int k = init == 3 ? 2 : (init == 0 ? (kmax < 3 ? kmax : 3) : (init == 2 ? kmax : 2 + (int)(p->id % (kmax - 1))));
+      kmres a; uint32_t sd = (uint32_t)vr_next(&R);
+      km_run(p, m, k, init, 1, sd, &a); emit_km(p, k, init, 1, &a, 0);
+      if(init == (int)(p->id % 4)){ kmres b; km_run(p, m, k, init, 2, sd, &b); VRT_EMIT("{\"e\":\"KmTh\",\"k\":%d,\"init\":%d,\"th\":%d,\"same\":%d}", k, init, 2, km_same(&a, &b)); km_free(&b); }
+      km_free(&a);
+    }
+  }
+  else if(p->shape){
+    /* class-directed set: selections at the boundary sizes for the three metrics with one thread count of every relation to
+       the number of objects, k-means for EVERY initialiser at two cluster counts, reuse of already sized outputs */
+    for(int metric = 0; metric < 3; metric++) emit_ranks(p, metric);
+    int sizes[4], ns = 0; sizes[ns++] = n; sizes[ns++] = 1; if(n > 2) sizes[ns++] = 2 + (int)vr_int(&R, 0, n - 3); if(!p->hist) sizes[ns++] = n - 1;
+    for(int metric = 0; metric < 3; metric++) for(int s = 0; s < ns; s++){
+      int k = sizes[s]; if(p->hist && s > 0 && metric != (int)(p->id % 3)) continue;
+      do_sel("MaxDis", MaxDis, m, k, metric, th_class(n, (metric + s) % 3, &R));
+      do_sel("MaxDis_Fast", MaxDis_Fast, m, k, metric, th_class(n, (metric + s + 1) % 3, &R));
+      if(s == 0) do_sel("MaxDis_Fast", MaxDis_Fast, m, k, metric, 1);
+    }
+    for(int metric = 0; metric < 3; metric++) do_sel("MDC", MDC, m, sizes[metric % ns], metric, th_class(n, metric, &R));
+    do_sel("MDC", MDC, m, n, (int)(p->id % 3), th_class(n, 2 - (int)(p->id % 2), &R));
+    do_kmpp(m, n, th_class(n, (int)(p->id % 3), &R), (uint32_t)vr_next(&R));
+    do_kmpp(m, sizes[ns - 1], 1, (uint32_t)vr_next(&R));
+    int kmax = n < 6 ? n : 6;
+    kmres keep; int have = 0;
+    for(int init = 0; init < 4; init++) for(int rep = 0; rep < 2; rep++){
+      int k = rep == 0 ? (kmax >= 2 ? 2 + (int)((p->id + init) % (kmax - 1)) : 1) : (init % 2 ? kmax : 1 + (int)vr_int(&R, 0, kmax - 1));
+      if(p->hist && rep == 1 && init < 2) continue;
+      kmres a, b; uint32_t sd = (uint32_t)vr_next(&R);
+      km_run(p, m, k, init, 1, sd, &a); emit_km(p, k, init, 1, &a, 0);
+      int th = th_class(n, (init + rep) % 3, &R);
+      km_run(p, m, k, init, th, sd, &b);
+      VRT_EMIT("{\"e\":\"KmTh\",\"k\":%d,\"init\":%d,\"th\":%d,\"same\":%d}", k, init, th, km_same(&a, &b));
+      km_free(&b);
+      if(init >= 2 && rep == 0){
+        /* class K7: the same call into outputs that are already sized for another k and hold another result */
+        if(have){ kmres fresh = a; km_call(p, m, k, init, 1, sd, &keep, 0); emit_km(p, k, init, 1, &keep, 1);
+          VRT_EMIT("{\"e\":\"KmRe\",\"k\":%d,\"init\":%d,\"same\":%d}", k, init, km_same(&fresh, &keep)); km_free(&a); }
+        else { keep = a; have = 1; }
+      }
+      else km_free(&a);
+    }
+    if(have) km_free(&keep);
   }
   else{
     for(int metric = 0; metric < 3; metric++) emit_ranks(p, metric);
@@ -180,37 +332,63 @@ static int run_set(void *arg){
     for(int init = 0; init < 4; init++) for(int rep = 0; rep < 2; rep++){
       int k = rep == 0 ? (int)vr_int(&R, 1, kmax) : 1 + (init + (int)p->id) % kmax;
       kmres a, b; uint32_t sd = (uint32_t)vr_next(&R);
-      km_run(m, k, init, 1, sd, &a); emit_km(p, k, init, 1, &a);
+      km_run(p, m, k, init, 1, sd, &a); emit_km(p, k, init, 1, &a, 0);
       for(int t = 0; t < 2; t++){ int th = (int)vr_int(&R, 2, 8);
-        km_run(m, k, init, th, sd, &b);
+        km_run(p, m, k, init, th, sd, &b);
         VRT_EMIT("{\"e\":\"KmTh\",\"k\":%d,\"init\":%d,\"th\":%d,\"same\":%d}", k, init, th, km_same(&a, &b));
         km_free(&b); }
       km_free(&a);
     }
   }
   DelMatrix(&m);
-  return 0;
 }
 
-static void drive(pset *p){
-  size_t cap = (size_t)p->n * p->d * 8 + 256; char *buf = malloc(cap); size_t q = 0;
+static void emit_points(pset *p){
+  size_t cap = (size_t)p->n * p->d * 8 + 512; char *buf = malloc(cap); size_t q = 0;
   VRT_EMIT("{\"e\":\"Reset\"}");
-  q += snprintf(buf + q, cap - q, "{\"e\":\"Points\",\"id\":%ld,\"exact\":%d,\"grid\":%d,\"distinct\":%d,\"shifted\":%d,\"X\":[", p->id, p->exact, p->grid, p->distinct, p->kmonly);
+  q += snprintf(buf + q, cap - q, "{\"e\":\"Points\",\"id\":%ld,\"exact\":%d,\"grid\":%d,\"distinct\":%d,\"shifted\":%d,\"affine\":%d,\"sexp\":%d,\"off\":[", p->id, p->exact, p->grid, p->distinct, p->kmonly, p->affine, p->sexp);
+  for(int j = 0; j < p->d; j++) q += snprintf(buf + q, cap - q, "%s%ld", j ? "," : "", p->off[j]);
+  q += snprintf(buf + q, cap - q, "],\"shape\":%d,\"hist\":%d,\"tiny\":%d,\"corner\":%d,\"X\":[", p->shape, p->hist, p->tiny, p->corner);
   for(int i = 0; i < p->n; i++){ q += snprintf(buf + q, cap - q, "%s[", i ? "," : ""); for(int j = 0; j < p->d; j++) q += snprintf(buf + q, cap - q, "%s%ld", j ? "," : "", p->x[i * p->d + j]); q += snprintf(buf + q, cap - q, "]"); }
   snprintf(buf + q, cap - q, "]}");
   VRT_EMIT("%s", buf); free(buf);
-  STAGE("none");
-  int rc = vrt_run_child(run_set, p, 120);
-  if(rc != 0) VRT_EMIT("{\"e\":\"Crash\",\"id\":%ld,\"rc\":%d,\"call\":\"%s\"}", p->id, rc, g_sh->call);
 }
 
+/* one child: one point set, or (class K7) a history of point sets in ONE process: A, B (another shape), A again */
+typedef struct { pset *p[3]; int np; } job;
+static int run_job(void *arg){
+  job *jb = (job *)arg;
+#ifdef LIBSCIENTIFIC_VERIF
+  libsci_verif_slice = slice_cb;
+#endif
+  for(int i = 0; i < jb->np; i++){ if(i > 0) emit_points(jb->p[i]); run_calls(jb->p[i]); }
+  return 0;
+}
+static void drive_job(job *jb){
+  for(int i = 0; i < jb->np; i++) if(!jb->p[i]->a) fill_actual(jb->p[i]);
+  emit_points(jb->p[0]);
+  STAGE("none");
+  int rc = vrt_run_child(run_job, jb, 120);
+  if(rc != 0) VRT_EMIT("{\"e\":\"Crash\",\"id\":%ld,\"rc\":%d,\"call\":\"%s\"}", jb->p[0]->id, rc, g_sh->call);
+}
+static void drive(pset *p){ job jb; jb.p[0] = p; jb.np = 1; drive_job(&jb); }
+
+static void gen_points(vrng *R, pset *p, int n, int d, long lim){
+  p->n = n; p->d = d; p->distinct = 1; p->x = malloc(sizeof(long) * n * d);
+  for(int i = 0; i < n; i++){
+    for(;;){ int ok = 0; for(int j = 0; j < d; j++){ p->x[i * d + j] = vr_int(R, -lim, lim); if(p->x[i * d + j] != 0) ok = 1; }
+      for(int r = 0; r < i && ok; r++){ int eq = 1; for(int j = 0; j < d; j++) if(p->x[r * d + j] != p->x[i * d + j]) eq = 0; if(eq) ok = 0; }
+      if(ok) break; }
+  }
+}
 static void gen_rand(uint64_t seed, long idx, pset *p){
   vrng R = { seed * 0x9E3779B97F4A7C15ULL + (uint64_t)idx * 104729 + 5 };
   static const int NS[] = {3, 4, 5, 7, 9, 12, 13, 20, 33, 50, 80};
   int n = (idx % 3 == 0) ? NS[(idx / 3) % 11] : (int)vr_int(&R, 3, idx % 3 == 1 ? 12 : 80);
   int d = 1 + (int)(idx % 6);
   long lim = n <= 12 ? 300 : 1000;
-  p->id = idx; p->n = n; p->d = d; p->exact = n <= 12; p->distinct = 1; p->grid = 0; p->x = malloc(sizeof(long) * n * d); p->seed = vr_next(&R);
+  p->id = idx; p->exact = n <= 12; p->grid = 0; p->seed = vr_next(&R);
+  p->n = n; p->d = d; p->distinct = 1; p->x = malloc(sizeof(long) * n * d);
   for(int i = 0; i < n; i++){
     for(;;){ int ok = 0; for(int j = 0; j < d; j++){ p->x[i * d + j] = vr_int(&R, -lim, lim); if(p->x[i * d + j] != 0) ok = 1; }
       for(int r = 0; r < i && ok; r++){ int eq = 1; for(int j = 0; j < d; j++) if(p->x[r * d + j] != p->x[i * d + j]) eq = 0; if(eq) ok = 0; }
@@ -218,8 +396,65 @@ static void gen_rand(uint64_t seed, long idx, pset *p){
   }
 }
 
+/* ---- class-directed sets.  Shapes (class K1 relations between objects and variables, class K2 block / slice boundaries): */
+static const int SHAPES[][2] = {
+  {3, 6}, {4, 6}, {5, 6},                 /* wide: fewer objects than variables            (shape codes 1..3)   */
+  {3, 3}, {4, 4}, {6, 6},                 /* square                                          4..6                */
+  {5, 4}, {6, 5}, {7, 6}, {4, 5},         /* objects = variables +- 1                        7..10               */
+  {3, 1}, {17, 1}, {80, 1},               /* a single variable                               11..13              */
+  {12, 2}, {24, 3}, {40, 5}, {80, 6},     /* tall                                            14..17              */
+  {8, 2}, {15, 3}, {16, 4}, {17, 2},      /* multiples of 4 / 8 / 16 and +-1                 18..21              */
+  {31, 3}, {32, 2}, {33, 4},              /* 32 +- 1                                         22..24              */
+  {63, 2}, {64, 3}, {65, 1},              /* 64 +- 1                                         25..27              */
+  {7, 2}, {9, 3}, {10, 2},                /* k * threads +- 1 for small thread counts        28..30              */
+};
+#define NSHAPES ((int)(sizeof SHAPES / sizeof SHAPES[0]))
+/* affine classes: K3 translation (offset 1e3, 1e5, 1e6 with per-column signs, one column left in place when there are
+   several) x scale 10^-3..10^3; K4 pure scale 10^-6..10^6; (0, 0) = the plain integer points */
+static const long AFF[][2] = {
+  {1000000, 0}, {1000000, -3}, {100000, -2}, {1000, -1}, {1000000, 3}, {100000, 1}, {1000, 2}, {1000000, -1},
+  {100000, -3}, {1000, -3}, {1000000, -2}, {100000, 0}, {1000, 0}, {1000000, 1}, {100000, -1}, {1000, 1},
+  {1000000, 2}, {100000, 2}, {1000, -2}, {100000, 3}, {1000, 3},
+  {0, -6}, {0, -3}, {0, -1}, {0, 3}, {0, 6}, {0, -2}, {0, 1}, {0, 2}, {0, 0},
+};
+#define NAFF ((int)(sizeof AFF / sizeof AFF[0]))
+static void set_affine(pset *p, long off, int sexp, vrng *R){
+  p->affine = (off != 0 || sexp != 0); p->sexp = sexp;
+  int keep = p->d >= 2 ? (int)vr_int(R, 0, 2 * p->d) : -1;     /* sometimes one column stays where it is */
+  for(int j = 0; j < p->d; j++) p->off[j] = (j == keep) ? 0 : (vr_int(R, 0, 3) == 0 ? -off : off);
+  if(off != 0){ int any = 0; for(int j = 0; j < p->d; j++) if(p->off[j] != 0) any = 1; if(!any) p->off[0] = off; }
+  if(p->affine) p->exact = 0;
+}
+static void gen_cls(uint64_t seed, long idx, pset *p, int variant){
+  vrng R = { seed * 0x9E3779B97F4A7C15ULL + (uint64_t)idx * 7919 + 77 + (uint64_t)variant * 1000003ULL };
+  memset(p, 0, sizeof *p);
+  int tiny = (idx % 5 == 4);
+  int shape = (int)((idx * 7 + idx / NSHAPES) % NSHAPES);
+  int n = SHAPES[shape][0], d = SHAPES[shape][1];
+  if(variant == 1){ shape = (shape + 11) % NSHAPES; n = SHAPES[shape][0] > 20 ? 9 : SHAPES[shape][0]; d = SHAPES[shape][1]; }   /* the other shape of a history */
+  long lim = n <= 12 ? 300 : 1000;
+  if(tiny){ n = 3 + (int)vr_int(&R, 0, 4); d = 1 + (int)vr_int(&R, 0, 2); lim = 20; shape = -1; }
+  /* the far corner of K3 x K4: the largest offset / resolution ratios the specification's arithmetic admits (1e7..1e9), on small
+     tight point sets (cancellation in one-pass distance / variance formulas, single-precision accumulators, relative thresholds) */
+  int corner = (!tiny && idx % 5 == 2 && variant == 0);
+  if(corner){ n = 6 + (int)((idx / 5) % 9); d = 1 + (int)((idx / 5 + idx / 45) % 6); lim = 60 + 40 * (long)((idx / 5) % 4); shape = -1; }
+  p->id = idx; p->grid = 0; p->seed = vr_next(&R); p->exact = 0; p->shape = shape + 2;      /* shape code > 0 marks the mode */
+  gen_points(&R, p, n, d, lim);
+  static const long CORNER[][2] = { {1000000, -3}, {1000000, -2}, {100000, -3}, {1000000, -3}, {100000, -2}, {1000000, -1}, {1000000, -3}, {100000, -3} };
+  const long *af = corner ? CORNER[(idx / 5) % 8] : AFF[(idx * 11 + idx / NAFF) % NAFF];
+  set_affine(p, af[0], (int)af[1], &R);
+  if(corner){ for(int j = 0; j < p->d; j++) if(p->off[j] == 0) p->off[j] = af[0]; }      /* every column far away */
+  if(!p->affine && n <= 12) p->exact = 1;
+  p->tiny = tiny;
+  /* TLC replays the Lloyd iterations of tiny sets in exact arithmetic; a non-representable scale far from the origin
+     would leave too little room between rounding and the smallest centroid movement: not recorded there */
+  p->chain = tiny && (p->sexp >= 0 || af[0] <= 100000);
+  p->hist = (!tiny && !corner && idx % 4 == 1 && n <= 40);
+  p->corner = corner;
+}
+
 int main(int argc, char **argv){
-  if(argc < 5){ fprintf(stderr, "usage: c17_drv out grid pointsfile seed | out rand seed first count\n"); return 2; }
+  if(argc < 5){ fprintf(stderr, "usage: c17_drv out grid pointsfile seed [kmstride full affstride] | out rand seed first count | out cls seed first count\n"); return 2; }
   vrt_open(argv[1]);
   g_sh = mmap(NULL, sizeof(shared_t), PROT_READ | PROT_WRITE, MAP_SHARED | MAP_ANONYMOUS, -1, 0);
   if(g_sh == MAP_FAILED){ perror("mmap"); return 2; }
@@ -229,24 +464,64 @@ int main(int argc, char **argv){
   if(!strcmp(argv[2], "grid")){
     FILE *fp = fopen(argv[3], "r"); if(!fp){ perror(argv[3]); return 2; }
     uint64_t seed = (uint64_t)atoll(argv[4]); long id; int n, d, dis; int kmstride = argc > 5 ? atoi(argv[5]) : 1, full = argc > 6 ? atoi(argv[6]) : 1;
+    int affstride = argc > 7 ? atoi(argv[7]) : 0;
     while(fscanf(fp, "%ld %d %d %d", &id, &n, &d, &dis) == 4){
       pset p; memset(&p, 0, sizeof p); p.id = id; p.n = n; p.d = d; p.exact = 1; p.grid = 1; p.kmstride = kmstride; p.full = full; p.distinct = dis; p.seed = seed + (uint64_t)id; p.x = malloc(sizeof(long) * n * d);
       for(int i = 0; i < n * d; i++) if(fscanf(fp, "%ld", &p.x[i]) != 1) return 2;
-      drive(&p); free(p.x);
+      p.chain = 1;
+      drive(&p); free(p.a); p.a = NULL;
+      if(affstride < 0 || (affstride > 0 && id % affstride == affstride / 2)){   /* < 0: always (replay of one set) */
+        /* the same point set translated (and scaled up) by exactly representable amounts: K3 / K4 on tie-rich data */
+        static const long GOFF[] = {1000000, 100000, 1000, 1000000, 0, 100000}; static const int GSEXP[] = {0, 1, 3, 2, 3, 0};
+        vrng R = { seed * 77 + (uint64_t)id }; int c = (int)((((uint64_t)id * 2654435761ULL) >> 16) % 6);
+        set_affine(&p, GOFF[c], GSEXP[c], &R); p.exact = 1; p.kmstride = 1; p.full = 0;
+        drive(&p); free(p.a);
+      }
+      free(p.x);
     }
     fclose(fp);
   }
   else if(!strcmp(argv[2], "rand") && argc >= 6){
     uint64_t seed = (uint64_t)atoll(argv[3]); long first = atol(argv[4]), count = atol(argv[5]);
     for(long idx = first; idx < first + count; idx++){
-      pset p; memset(&p, 0, sizeof p); gen_rand(seed, idx, &p); drive(&p);
+      pset p; memset(&p, 0, sizeof p); gen_rand(seed, idx, &p); drive(&p); free(p.a); p.a = NULL;
       /* the same points translated so that the object farthest from the centroid is the origin (k-means only) */
       int far = 0; int64_t best = -1;
       for(int i = 0; i < p.n; i++){ int64_t acc = 0; for(int j = 0; j < p.d; j++){ int64_t S = 0; for(int r = 0; r < p.n; r++) S += p.x[r * p.d + j]; int64_t t = (int64_t)p.n * p.x[i * p.d + j] - S; acc += t * t; } if(acc > best){ best = acc; far = i; } }
       long *o = malloc(sizeof(long) * p.d); memcpy(o, p.x + far * p.d, sizeof(long) * p.d);
       for(int i = 0; i < p.n; i++) for(int j = 0; j < p.d; j++) p.x[i * p.d + j] -= o[j];
       p.kmonly = 1; p.exact = 0; drive(&p);
-      free(o); free(p.x);
+      free(o); free(p.x); free(p.a);
+    }
+  }
+  else if(!strcmp(argv[2], "cls") && argc >= 6){
+    uint64_t seed = (uint64_t)atoll(argv[3]); long first = atol(argv[4]), count = atol(argv[5]);
+    for(long idx = first; idx < first + count; idx++){
+      pset a, b, a2; gen_cls(seed, idx, &a, 0);
+      job jb; jb.p[0] = &a; jb.np = 1;
+      if(a.hist){
+        /* class K7: A, then another shape with its own data in the SAME process, then A again */
+        gen_cls(seed, idx, &b, 1); b.hist = 2; b.tiny = 0; b.chain = 0;
+        a2 = a; a2.a = NULL; a2.hist = 3;
+        jb.p[1] = &b; jb.p[2] = &a2; jb.np = 3;
+      }
+      drive_job(&jb);
+      free(a.x); free(a.a); if(jb.np == 3){ free(b.x); free(b.a); free(a2.a); }
+    }
+  }
+  else if(!strcmp(argv[2], "corner") && argc >= 6){
+    uint64_t seed = (uint64_t)atoll(argv[3]); long first = atol(argv[4]), count = atol(argv[5]);
+    static const long CORNER2[][2] = { {1000000, -3}, {1000000, -2}, {100000, -3}, {1000000, -3}, {100000, -2}, {1000000, -1}, {1000000, -3}, {100000, -3} };
+    for(long idx = first; idx < first + count; idx++){
+      pset p; memset(&p, 0, sizeof p);
+      vrng R = { seed * 0x9E3779B97F4A7C15ULL + (uint64_t)idx * 6151 + 991 };
+      int n = 6 + (int)(idx % 9), d = 1 + (int)((idx / 3) % 6); long lim = 40 + 30 * (long)(idx % 5);
+      p.id = idx; p.seed = vr_next(&R); p.shape = 1; p.corner = 2;
+      gen_points(&R, &p, n, d, lim);
+      const long *af = CORNER2[(idx / 2) % 8];
+      set_affine(&p, af[0], (int)af[1], &R);
+      for(int j = 0; j < p.d; j++) if(p.off[j] == 0) p.off[j] = af[0];
+      drive(&p); free(p.x); free(p.a);
     }
   }
   else { fprintf(stderr, "bad mode\n"); return 2; }
